@@ -212,6 +212,16 @@ Lemma pres_delete_node_edges : forall st n, pres st (delete_node_edges st n).
 Proof. intros. unfold delete_node_edges. apply fold_pres. intros. apply pres_delete_edge_at_epoch. Qed.
 
 (** ** creations *)
+Lemma pres_db_detach : forall st n, pres st (db_detach st n).
+Proof. intros. unfold db_detach. destruct (c_visible_at _ _); [apply pres_delete_node_edges|apply pres_refl]. Qed.
+(** [GrafeoDB::delete_node] (109e5bf: detach, then delete) only rewrites deletion marks, side tables and tombstones *)
+Lemma pres_db_delete_node : forall st n, pres st (fst (step st (DbDeleteNode n))).
+Proof.
+  intros st n. cbn [step]. pose proof (pres_db_detach st n) as H1. set (st1 := db_detach st n) in *.
+  pose proof (pres_delete_node_at_epoch st1 n (st_epoch st1)) as H2.
+  destruct (delete_node_at_epoch st1 n (st_epoch st1)) as [st2 b]. cbn [fst] in *. eapply pres_trans; eassumption.
+Qed.
+
 Lemma inv_create_node_versioned : forall st labels e t, inv st -> ver_ok st (mkV e None t) ->
   inv (fst (create_node_versioned st labels e t)).
 Proof.
@@ -428,9 +438,7 @@ Proof.
     cbn [step]. destruct (sess st s) as [t0|] eqn:Hs; cbn [fst].
     + eapply inv_set_rdf_push; eauto.
     + apply inv_set_rdf_same_buf; exact Hi.
-  - (* DbDeleteNode *)
-    cbn [step]. pose proof (pres_delete_node_at_epoch st n (st_epoch st)) as H.
-    destruct (delete_node_at_epoch st n (st_epoch st)) as [st1 b]. cbn [fst] in *. eapply inv_pres; eauto.
+  - (* DbDeleteNode *) eapply inv_pres; [exact Hi|apply pres_db_delete_node].
   - cbn [step fst]. eapply inv_pres; [exact Hi|apply pres_set_node_property].
   - cbn [step]. pose proof (pres_remove_node_property st n k) as H.
     destruct (remove_node_property st n k) as [st1 b]. cbn [fst] in *. eapply inv_pres; eauto.
